@@ -772,7 +772,7 @@ def rule_d4a(toks, log):
 # ---------------------------------------------------------------------------------------
 # D10: f32/f64 arithmetic in a branch condition ==> opaque guard function
 
-_F_OPS = {'+', '-', '*', '/', '>', '<', '>=', '<=', '(', ')'}
+_F_OPS = {'+', '-', '*', '/', '>', '<', '>=', '<=', '(', ')', '||', '&&'}   # `||` / `&&`: two float tests in one condition (float/src/convert.rs convert_to_binary_once) still become ONE guard
 
 
 def _is_float_lit(t):
